@@ -16,7 +16,7 @@ import os
 
 import eqlmc  # noqa: F401
 from entity_query_language import (an, a, entity, set_of, let, the, infer, symbolic_mode, rule_mode, Add, alternative,
-                                   refinement, and_)
+                                   refinement, and_, or_)
 
 from .. import qast as Q
 from .. import worlds as W
@@ -95,6 +95,9 @@ SPECS = {
     # pool F: ONE attribute expression object of a shared variable used by several queries in different roles (as a
     # condition, as an operand, as a selected value) over data with falsy values
     "sh_cond": "special", "sh_val": "special", "sh_sel": "special", "sh_valne": "special",
+    # pool G: a SUB-QUERY object that is evaluated on its own and also nested in another query; one CONDITION object
+    # used by several queries (alone, as the left side of a disjunction, as a conjunct)
+    "sq_part": "special", "sq_nested": "special", "cc_alone": "special", "cc_or": "special", "cc_and": "special",
     "iter": "special",
     "rule": "special",
     "rule_ref": "special",
@@ -107,6 +110,7 @@ POOLS = {
     "D": ("fl_pe", "fl_e", "fl_the", "fl_pred", "fl_all"),
     "E": ("nd_k", "nd_join", "nd_rule", "nd_o"),
     "F": ("sh_cond", "sh_val", "sh_sel", "sh_valne"),
+    "G": ("sq_part", "sq_nested", "cc_alone", "cc_or", "cc_and"),
 }
 
 
@@ -160,6 +164,20 @@ class Pool:
             self.b.env["xi"] = xi
             with symbolic_mode():
                 self.q["iter"] = an(entity(xi, xi.p >= 2))
+        if pool == "G":
+            one, two, three = inst.v(1), inst.v(2), inst.v(3)
+            xg, yg = let(W.Item, self.world["DA"]), let(W.Item, self.world["DB"])
+            with symbolic_mode():
+                part1 = an(entity(xg, xg.p == one))
+                part2 = an(entity(xg, xg.q == two))
+                self.q["sq_part"] = part1
+                self.q["sq_nested"] = an(entity(xg, part1 | part2))
+                xc = let(W.Item, self.world["DA"])
+                c = xc.p == two                                   # one condition object, reused below
+                self.q["cc_alone"] = an(entity(xc, c))
+                self.q["cc_or"] = an(entity(xc, or_(c, xc.q == one)))
+                self.q["cc_and"] = an(set_of([xc, yg], and_(c, xc.q <= yg.q)))
+            self.cc_sel = (xc, yg)
         if pool == "F":
             xf = let(W.Item, self.world["DF"])
             with symbolic_mode():
@@ -220,6 +238,8 @@ class Pool:
             return [tuple(Q.norm(r[s]) for s in self.nd_sel) for r in rows]
         if name == "sh_sel":
             return [tuple(Q.norm(r[s]) for s in self.sh_sel) for r in rows]
+        if name == "cc_and":
+            return [tuple(Q.norm(r[s]) for s in self.cc_sel) for r in rows]
         if spec != "special" and spec[2] == "setof":
             sel = self.b.sel[spec]
             return [tuple(Q.norm(r[s]) for s in sel) for r in rows]
@@ -296,6 +316,12 @@ def same(name, got, exp):
             or (isinstance(exp, tuple) and exp and exp[0] == "value"):
         return got == exp
     spec = SPECS[name]
+    if name == "cc_and":
+        return set(got) == set(exp)
+    if name.startswith(("sq_", "cc_")):
+        # pool G: the statement promises the same result SET; with a condition object shared by several queries the order in
+        # which a warm cache replays its rows depends on which query filled it first (each row still exactly once)
+        return sorted(map(repr, got)) == sorted(map(repr, exp))
     if name in ("rule", "rule_ref", "fl_pe", "fl_pred", "fl_all", "nd_rule", "nd_join", "sh_sel"):     # one row per (parent, occurrence): multiset
         return sorted(map(repr, got)) == sorted(map(repr, exp))
     if spec == "special" or spec[2] == "entity" or name == "dupjoin":
@@ -354,6 +380,13 @@ def describe(case, inst):
             lines.append(f"{name}: " + Q.up_query(spec, inst))
         elif name == "iter":
             lines.append("iter: xi = let(Item, iter(DA)); q = an(entity(xi, xi.p >= 2))")
+        elif name.startswith(("sq_", "cc_")):
+            lines.append({
+                "sq_part": "xg = let(Item, DA); part1 = an(entity(xg, xg.p == 1)); part2 = an(entity(xg, xg.q == 2))\nsq_part: part1",
+                "sq_nested": "sq_nested: an(entity(xg, part1 | part2))",
+                "cc_alone": "xc = let(Item, DA); c = (xc.p == 2)   # ONE condition object\ncc_alone: an(entity(xc, c))",
+                "cc_or": "cc_or: an(entity(xc, or_(c, xc.q == 1)))",
+                "cc_and": "cc_and: an(set_of([xc, y], and_(c, xc.q <= y.q)))   # y = let(Item, DB)"}[name])
         elif name.startswith("sh_"):
             lines.append({
                 "sh_cond": "xf = let(Item, DF); lvl = xf.flag   # ONE expression object\nsh_cond: an(entity(xf, lvl))",
